@@ -3,7 +3,7 @@
 Real code under check: pyunicorn.climate.ClimateNetwork (constructor with threshold / link_density,
 non_local, directed; set_threshold, set_link_density, set_non_local; threshold(), adjacency, n_links,
 link_density, similarity_measure()), CoupledClimateNetwork and the data-derived subclasses
-(Tsonis, Spearman, PartialCorrelation, MutualInfo, Havlin, Hilbert, CoupledTsonis).
+(Tsonis, Spearman, PartialCorrelation, MutualInfo, Havlin, Hilbert, CoupledTsonis, Rainfall, EventSeries).
 Oracle: specs/similarity_network.py (strict mask off the diagonal, tanh distance weight from an
 independently computed great-circle distance, quantile characterisation of the density threshold).
 
@@ -32,14 +32,16 @@ try:
     from pyunicorn.climate import (ClimateNetwork, CoupledClimateNetwork, ClimateData, TsonisClimateNetwork,
                                    SpearmanClimateNetwork, PartialCorrelationClimateNetwork,
                                    MutualInfoClimateNetwork, HavlinClimateNetwork, HilbertClimateNetwork,
-                                   CoupledTsonisClimateNetwork)
+                                   CoupledTsonisClimateNetwork, RainfallClimateNetwork,
+                                   EventSeriesClimateNetwork)
 except Exception:
     traceback.print_exc()
     sys.exit(3)
 
 DATA_CLASSES = {c.__name__: c for c in (TsonisClimateNetwork, SpearmanClimateNetwork,
                                          PartialCorrelationClimateNetwork, MutualInfoClimateNetwork,
-                                         HavlinClimateNetwork, HilbertClimateNetwork, CoupledTsonisClimateNetwork)}
+                                         HavlinClimateNetwork, HilbertClimateNetwork, CoupledTsonisClimateNetwork,
+                                         RainfallClimateNetwork, EventSeriesClimateNetwork)}
 WINTER_CLASSES = ("TsonisClimateNetwork", "SpearmanClimateNetwork", "PartialCorrelationClimateNetwork",
                   "MutualInfoClimateNetwork")
 
@@ -189,6 +191,8 @@ def make_data(d):
         return cd, X, 5
     grid = GeoGrid(np.array(d["times"], float), np.array(d["lats"], float), np.array(d["lons"], float), 3)
     X = np.array(d["X"], dtype=float)
+    if d.get("abs"):
+        X = np.abs(X)                                        # rainfall-like, non-negative
     return ClimateData(X.copy(), grid, time_cycle=int(d["cycle"]), silence_level=3), X, int(d["cycle"])
 
 
@@ -252,7 +256,14 @@ def build(case):
         extra["max_delay"] = int(case["max_delay"])
     if case["cls"] == "HilbertClimateNetwork":
         extra["directed"] = directed = bool(case.get("directed", False))
-    if case["cls"] == "CoupledTsonisClimateNetwork":
+    if case["cls"] == "EventSeriesClimateNetwork":
+        sym = case.get("symmetrization", "directed")
+        directed = sym == "directed"
+        assert kw == {"threshold": 0}, "EventSeriesClimateNetwork is always constructed with threshold 0"
+        net = cls(cd, method="ES", taumax=3.0, threshold_method="quantile", threshold_values=0.7,
+                  threshold_types="above", symmetrization=sym, non_local=nl, silence_level=3)
+        lats, lons = list(cd.grid.lat_sequence()), list(cd.grid.lon_sequence())
+    elif case["cls"] == "CoupledTsonisClimateNetwork":
         cd2, X2, _c2 = make_data(case["data2"])
         Xs.append(X2)
         if case.get("selected_months") is not None:
@@ -536,6 +547,12 @@ def gen_data(tier, seed, lo, hi):
               [["nl", True], ["thr@q", 0.3], ["nl", False]]]
     for d, monthly in datasets:
         for name in DATA_CLASSES:
+            if name in ("RainfallClimateNetwork", "EventSeriesClimateNetwork"):
+                if d.get("small"):
+                    continue                                  # need non-negative / eventful data: synthetic only
+                d_use = dict(d, abs=True)
+            else:
+                d_use = d
             inits = [{"link_density": 0.4}, {"link_density": 0.0}, {"link_density": 1.0},
                      {"threshold": 3.5 if name == "HavlinClimateNetwork" else 0.5}]
             for init in inits:
@@ -543,7 +560,13 @@ def gen_data(tier, seed, lo, hi):
                     for ci, ops in enumerate(chains):
                         if tier == "quick" and (ci + nl + len(str(init))) % 2:
                             continue
-                        case = dict(kind="data", cls=name, data=d, non_local=nl, init=init, ops=[list(o) for o in ops])
+                        case = dict(kind="data", cls=name, data=d_use, non_local=nl, init=init,
+                                    ops=[list(o) for o in ops])
+                        if name == "EventSeriesClimateNetwork":
+                            if "link_density" in init:
+                                continue                      # constructor has no threshold / density argument
+                            case["init"] = {"threshold": 0}
+                            case["symmetrization"] = ("directed", "symmetric", "mean", "max")[ci]
                         if name in WINTER_CLASSES:
                             case["winter_only"] = bool(monthly and ci % 2 == 0)
                             if monthly:
@@ -633,7 +656,8 @@ def main():
              "6 (quick) / 48 (thorough) matrices with ties, negative and asymmetric entries, seeded random matrices "
              "N<=12 (some <=40 in thorough) on clustered irregular grids with threshold sweeps, thresholds equal to "
              "entries and densities k/M, CoupledClimateNetwork, and Tsonis/Spearman/PartialCorrelation/MutualInfo/"
-             "Havlin/Hilbert/CoupledTsonis networks on ClimateData.SmallTestData() and synthetic monthly data "
+             "Havlin/Hilbert/CoupledTsonis/Rainfall/EventSeries networks on ClimateData.SmallTestData() and synthetic "
+             "monthly data (Rainfall/EventSeries on non-negative synthetic data only) "
              "(threshold and link_density construction, setter chains, set_winter_only / set_max_delay).  "
              "Undirected networks are only built from symmetric explicit matrices.  Comparisons are exact for "
              "thresholds representable in single precision (otherwise pairs within the threshold's single-precision "
